@@ -1,0 +1,20 @@
+//go:build verif
+
+package date_j5t
+
+// Contracts for contract-based verification (/verif, properties C08, C01, C03).
+
+// README: dates are zero-padded YYYY-MM-DD.
+//@ func (*Date).DateString
+//@   opt strings smt
+//@   requires dd != nil
+//@   let ok = 0 <= dd.Year && dd.Year <= 9999 && 1 <= dd.Month && dd.Month <= 12 && 1 <= dd.Day && dd.Day <= 31
+//@   ensures length: ok ==> len(result) == 10
+//@   ensures dashes: ok ==> result[4] == '-' && result[7] == '-'
+//@   ensures shape: ok ==> matches("^[0-9]{4}-[0-9]{2}-[0-9]{2}$", result)
+
+// A date that decodes successfully is a calendar date whose components are the numbers written:
+// nothing wraps through the int32 fields and month/day are in range.
+//@ func DateFromString
+//@   ensures range: result1 == nil ==> result0 != nil && 0 <= result0.Year && result0.Year <= 9999 && 1 <= result0.Month && result0.Month <= 12 && 1 <= result0.Day && result0.Day <= 31
+//@   ensures exact: result1 == nil ==> (exists a string, b string, c string :: atoiOK(a) && atoiOK(b) && atoiOK(c) && result0.Year == atoiVal(a) && result0.Month == atoiVal(b) && result0.Day == atoiVal(c))
